@@ -582,3 +582,29 @@ V("c19-second-wrapper", "C19", "M", XRP, "    variables = {name: to_variable(var
 ''', "C19-T7")
 V("c20-count-in-padding", "C20", "M", LFD, '    "blanks2" / PaddedString(230),', '    "number_of_extra_records" / AsciiInteger(6),\n    "blanks2" / PaddedString(224),', "padding")
 V("c20-eq-padding-split", "C20", "E", LFD, '    "blanks2" / PaddedString(230),', '    "blanks2" / PaddedString(6),\n    "blanks3" / PaddedString(224),')
+
+# ---------------------------------------------------------------- round 8
+UTL = "ceos_alos2/utils.py"
+V("c16-empty-listcontainer", "C16", "M", UTL, "            type_ = list\n", "            if type(container[0]) in (int, float, str):\n                return list(container)\n            type_ = list\n", "to_dict")
+V("c16-eq-to-dict-loop", ["C16", "C03", "C04"], "E", UTL, '    return {name: to_dict(section) for name, section in container.items() if name != "_io"}',
+  '''    converted = {}
+    for name, section in container.items():
+        if name == "_io":
+            continue
+        converted[name] = to_dict(section)
+
+    return converted''')
+V("c12-entries-into-attrs", "C12", "M", HIE, "        self.data = {name: self._adjust_item(name, value) for name, value in self.data.items()}", '''        extra = {name: value for name, value in self.data.items() if not isinstance(value, (Group, Variable))}
+        if extra:
+            self.attrs = self.attrs | extra
+        self.data = {name: self._adjust_item(name, value) for name, value in self.data.items() if name not in extra}''', "C12-Y11")
+V("c10-nesting-in-place", "C10", "M", HIE, "        new_value = copy.copy(value)\n", "        new_value = value\n", "C10-W10")
+V("c19-no-lock-on-memory", "C19", "M", XRP, "        lock = SerializableLock()", '        lock = DummyLock() if "memory" in str(var.data.fs.fs.protocol) else SerializableLock()', "memory",
+  more=[(XRP, "from xarray.backends.locks import SerializableLock", "from xarray.backends.locks import DummyLock, SerializableLock")])
+V("c19-eq-no-lock-on-local", "C19", "E", XRP, "        lock = SerializableLock()", '        lock = DummyLock() if var.data.fs.fs.protocol == "file" else SerializableLock()',
+  more=[(XRP, "from xarray.backends.locks import SerializableLock", "from xarray.backends.locks import DummyLock, SerializableLock")])
+V("c13-product-root-cut", "C13", "M", IOO, "    mapper = fsspec.get_mapper(path, **storage_options)", '    mapper = fsspec.get_mapper(path.rsplit("/", 1)[0] if "." in path.rsplit("/", 1)[-1] else path, **storage_options)', "location")
+V("c13-ids-from-filenames", "C13", "M", IOO, "attrs=volume_directory.attrs | attrs)", 'attrs={k: (v or filenames["sar_leader"].split("-", 1)[-1]) if k in ("scene_id", "product_id") else v for k, v in volume_directory.attrs.items()} | attrs)', "root attrs")
+V("c20-nan-tail-trimmed", "C20", "M", TRF, "    return list(values), metadata", "    values = list(values)\n    while len(values) > 1 and values[-1] != values[-1]:\n        values.pop()\n\n    return values, metadata", "C20-P7")
+V("c08-zero-stamp-none", ["C08", "C07"], "M", DTY, '        base = datetime.datetime(obj["year"], 1, 1)\n', '        if obj["year"] == 0 and obj["day_of_year"] == 0:\n            return None\n        base = datetime.datetime(obj["year"], 1, 1)\n', "NaT")
+V("c01-eq-adjust-alias", ["C01", "C06"], "E", SIO, "    record.data.start += offset\n    record.data.stop += offset\n", "    byte_range = record.data\n    byte_range.start += offset\n    byte_range.stop += offset\n")
